@@ -26,7 +26,8 @@ class Tracker(CmdMixin, MboxMixin, SweepMixin, Monitor):
         self.mb = {}                       # (app, mid) -> MbInc (current)
         self.np = {}                       # (app, name) -> NpInc (current)
         self.msgs = defaultdict(list)      # (app, mid) -> [(side, phase, body, id, rx)]
-        self.lost_np = {}                  # (app, name) -> (mailbox id, holders) of a nameplate that vanished wrongly
+        self.f8_dangling = False
+        self.lost_np = {}                # (app, name) -> (mailbox id, holders) of a nameplate that vanished wrongly
         self._np_before = {}
         self.retired_np = {}               # (app, name) -> mailbox id of an incarnation that ended by its last release
         self.mid_owner = {}                # mailbox id -> (app, name, n) nameplate incarnation it was answered for
@@ -76,7 +77,9 @@ class Tracker(CmdMixin, MboxMixin, SweepMixin, Monitor):
         # C09: nothing is pending when a frame leaves
         self.ev["c09_no_txn_at_frame"] += 1
         pend = world.any_in_transaction()
-        if pend:
+        if pend and self.f8_dangling:
+            self.dontcare["c09_window_after_known_F8"] += 1
+        elif pend:
             self.flag({"C09"}, "frame emitted inside an open transaction", st,
                       {"conn": conn, "frame": _short(frame), "pending": pend})
 
@@ -166,8 +169,14 @@ class Tracker(CmdMixin, MboxMixin, SweepMixin, Monitor):
                       {"exc": st.exc, "msg": st.msg, "tb": _tail(st.tb)})
         for (c, how) in st.drops:
             self.flag({"C17"}, "server dropped the connection", st, {"conn": c, "how": how, "msg": st.msg})
-        if st.in_txn_after and f8:
-            pass
+        if f8:
+            # part of the known finding: the failed INSERT leaves the server's connection inside an (empty)
+            # transaction until the next commit; frames and steps in that window are not judged by C09
+            self.f8_dangling = True
+        if not st.in_txn_after:
+            self.f8_dangling = False
+        if st.in_txn_after and self.f8_dangling:
+            self.dontcare["c09_window_after_known_F8"] += 1
         elif st.in_txn_after:
             self.ev["c09_no_txn_after_step"] += 1
             self.flag({"C09", "C17"}, "transaction left open after step", st,
